@@ -82,6 +82,8 @@ fn step_out_hash(rec: &StepRecord) -> u64 {
 /// Executes prefix + history. None if some action of the history is not applicable (then the
 /// history is not a path of the transition system).
 pub fn execute(d: &Driver, hist: &[u8], keep_world: bool) -> Option<(ExecOut, Option<(World, Monitors)>)> {
+    let describe = || replay_json(d, hist);
+    let _guard = crate::common::RunGuard::new(&describe);
     with_rt(|rt| {
         rt.block_on(async {
             let mut w = World::new(&d.cfg);
